@@ -75,7 +75,7 @@ pub fn plan(prop: &str, tier: &str, ctx: &Ctx) -> (u64, u64, String) {
             (
                 ex + if thorough { 60_000_000 } else { 2_000_000 },
                 ex,
-                format!("every byte string of length <= {l} over {{00,0A,20,2D,41,80,C3,E4,FE,FF}} x 4 traps; every sequence of 1..4 bytes over the UTF-8 malformation shapes {{41,80,BF,C0,C2,E0,ED,A0,F0,F4,90,F8}} (after an ASCII first byte) x 4 traps; every sequence of 1..4 byte tokens (ASCII, valid U+FFFD / CJK / astral, malformed pieces) as UTF-8 and as UTF-16LE x 4 traps; 720 mid-stream inserts (BOM patterns, U+FFFD, CJK, 0x80 behind ASCII prefixes of 0..4097 bytes); plus {} sized inputs (stored length 64 KiB / 1 MiB / 2 MiB and +-1, 5 kinds of tail, 3 encodings, BOM or not, 4 traps)", c18::ztail_count()),
+                format!("every byte string of length <= {l} over {{00,0A,20,2D,41,80,C3,E4,FE,FF}} x 4 traps; every sequence of 1..4 bytes over the UTF-8 malformation shapes {{41,80,BF,C0,C2,E0,ED,A0,F0,F4,90,F8}} (after an ASCII first byte) x 4 traps; every sequence of 1..4 byte tokens (ASCII, LF, CR, LS, PS, NEL, valid U+FFFD / CJK / astral, malformed pieces) as UTF-8 and as UTF-16LE x 4 traps; 720 mid-stream inserts (BOM patterns, U+FFFD, CJK, 0x80 behind ASCII prefixes of 0..4097 bytes); plus {} sized inputs (stored length 64 KiB / 1 MiB / 2 MiB and +-1, 5 kinds of tail, 3 encodings, BOM or not, 4 traps)", c18::ztail_count()),
             )
         }
         _ => (0, 0, String::new()),
